@@ -63,6 +63,7 @@ def run(ctx):
     rule3(ctx, prog, flows, full)
     rule4(ctx, prog, flows, full)
     rule5(ctx, prog, flows)
+    rule7(ctx, prog, flows, full)
 
 
 def rule1(ctx, prog, flows, cub, full, basic):
@@ -427,3 +428,77 @@ def rule5(ctx, prog, flows):
                 picks.append("paths[const] at %s" % loc_str(t2.span))
     ctx.require(not picks, "R-C08-5", "every-path", "contains_path_through_node looks at every path, none is singled out", "contains_path_through_node singles out one stored path (%s): with tied paths of different hop counts the pair is judged by that path alone" % "; ".join(picks), loc_str(cp.span))
     ctx.require(ok, "R-C08-5", "interior", "the node must lie strictly inside a path: path[1 .. len-1]", "contains_path_through_node looks at %s: endpoints would count" % why, loc_str(cp.span))
+
+
+def rule7(ctx, prog, flows, full):
+    """the relaxation step: whenever the tentative distance of u is improved (`seen[u] = vu_dist`) and paths are
+    wanted, the path list of u is rewritten in the same step -- on every path, whatever `first_only` says and whatever
+    the list holds at that moment.  Otherwise the reported path belongs to an earlier, longer route."""
+    from hashord import natural_loop_blocks
+    from effects import Effects
+
+    ctx.rule("R-C08-7", "full kernel: every improvement of seen[u] is followed, when with_paths is set, by a write of paths[u] before the next edge is relaxed")
+    fl = flows.of(full)
+    # identified by type, not by name: the tentative / final distances are the Vec<f64> locals, the path lists the
+    # Vec<Vec<Vec<usize>>> local; `with_paths` is the kernel's last bool parameter
+    seen_ls = {l["i"] for l in full.locals if str(l["ty"]) == "std::vec::Vec<f64>"}
+    paths_ls = {l["i"] for l in full.locals if str(l["ty"]).replace("&mut ", "") == "std::vec::Vec<std::vec::Vec<std::vec::Vec<usize>>>"}
+    bool_params = [i for i in range(1, full.arg_count + 1) if full.local_ty(i) == "bool"]
+    wp_name = full.local_name(bool_params[-1]) if bool_params else None
+    if not seen_ls or not paths_ls or wp_name is None:
+        ctx.anchor_lost("R-C08-7", "Vec<f64> distances, the Vec<Vec<Vec<usize>>> path lists and a trailing bool parameter in the full kernel")
+        return
+    effects = Effects(prog, flows)
+
+    def writes_of(ls):
+        out = set()
+        for (bb, site, obj, kind) in effects.events(full.path):
+            if obj[0] == "L" and obj[1] in ls:
+                via = site.callee.short.split("::")[-1] if getattr(site, "k", None) == "call" and site.callee else "assign"
+                if via in ("index_mut", "index", "deref_mut", "iter_mut", "as_mut_slice", "get_mut"):
+                    continue  # only obtains the slot
+                out.add(bb)
+        return out
+
+    w_seen = writes_of(seen_ls)
+    w_paths = writes_of(paths_ls)
+    # with_paths == false edges
+    wp_false = []
+    for (bb, test, t_succ, f_succ) in panic.bool_atoms(fl):
+        if test == ("place", wp_name) and f_succ is not None:
+            wp_false.append((bb, f_succ))
+    n = 0
+    for s_bb in sorted(w_seen):
+        # the innermost loop around this write
+        loops = []
+        for t in full.calls():
+            if t.callee and t.callee.short == "std::iter::Iterator::next":
+                lb = natural_loop_blocks(full, t.bb)
+                if s_bb in lb and len(lb) > 1:
+                    loops.append((len(lb), t.bb, lb))
+        if not loops:
+            continue  # the initialisation `seen[source] = 0`
+        loops.sort()
+        _, header, lb = loops[0]
+        n += 1
+        # blocks reachable from the write without passing a paths write and without taking a with_paths == false edge
+        seen_b = set()
+        st = [y for y in full.succ(s_bb)]
+        reached_header = False
+        while st:
+            x = st.pop()
+            if x in seen_b:
+                continue
+            seen_b.add(x)
+            if x == header:
+                reached_header = True
+                break
+            if x in w_paths or x not in lb:
+                continue
+            for y in full.succ(x):
+                if (x, y) in wp_false:
+                    continue
+                st.append(y)
+        ctx.require(not reached_header and bool(wp_false), "R-C08-7", "improve|%d" % n, "the improvement of seen[u] is followed by a write of paths[u] on every with_paths path",
+                    "after `seen[u]` is improved there is a path on which with_paths is set and the next edge is relaxed without paths[u] having been rewritten: the path reported for u stays that of an earlier, longer route (its distance is right, its path is not one of the shortest paths)", loc_str(full.blocks[s_bb].term.span))
+    ctx.floor("R-C08-7", "seen_improvements", n, 1)
